@@ -65,6 +65,8 @@ def script_from_trace(trace):
                     s[3].remove('kill')
                     s[2] = 400
         meta['abort_after_entries'] = n_entries
+        if any(e[0] == 'CANCEL_BEFORE_FIRST_POLL' for e in trace[:ab + 1]):
+            meta['abort_now'] = True
     script = ';'.join('%s/%s/%d/%s' % (s[0], s[1], s[2], '+'.join(s[3])) for s in order)
     return script, meta
 
@@ -109,8 +111,8 @@ def trace_from_log(log, meta):
     return tr
 
 
-def run_native(script, sup=True, sup_dead=False, named=False, abort_after=None, tl=False):
-    out, lines, rc, err = native.run('life', script=script, sup=1 if sup else 0, sup_dead=1 if sup_dead else 0, named=1 if named else 0, abort_after_entries=abort_after,
+def run_native(script, sup=True, sup_dead=False, named=False, abort_after=None, tl=False, abort_now=False):
+    out, lines, rc, err = native.run('life', script=script, sup=1 if sup else 0, sup_dead=1 if sup_dead else 0, named=1 if named else 0, abort_after_entries=abort_after, abort_now=1 if abort_now else 0,
                                      obs=1 if 'linkobs' in script else 0, tl=1 if tl else 0, timeout=30)
     if rc != 0:
         raise RuntimeError('native life replay failed: ' + err[-300:])
@@ -148,7 +150,7 @@ def replay_trace(tag, trace, prop, sup=True, sup_dead=False, named=False):
     if script is None:
         return {'replayed': False, 'detail': 'no native script for this path: %s' % meta}
     tl = 'ThreadLocal' in str(tag)
-    log = run_native(script, sup, sup_dead, named, meta.get('abort_after_entries'), tl)
+    log = run_native(script, sup, sup_dead, named, meta.get('abort_after_entries'), tl, meta.get('abort_now', False))
     bad, tr = evaluate(prop, log, meta, sup)
     return {'replayed': bool(bad), 'detail': 'native scripted %sactor [%s]%s -> log %s ; violated %s' % ('thread-local ' if tl else '', script, ' aborted after %s entries' % meta['abort_after_entries'] if 'abort_after_entries' in meta else '', log, bad),
             'replay': {'scenario': 'life', 'prop': prop, 'script': script, 'meta': meta, 'sup': sup, 'sup_dead': sup_dead, 'named': named, 'thread_local': tl, 'violated': bad}}
@@ -163,7 +165,7 @@ def replay_guard(mode, armed, noc):
 
 def replay_from_json(d):
     rp = d['replay']
-    log = run_native(rp['script'], rp.get('sup', True), rp.get('sup_dead', False), rp.get('named', False), rp['meta'].get('abort_after_entries'), rp.get('thread_local', False))
+    log = run_native(rp['script'], rp.get('sup', True), rp.get('sup_dead', False), rp.get('named', False), rp['meta'].get('abort_after_entries'), rp.get('thread_local', False), rp['meta'].get('abort_now', False))
     bad, tr = evaluate(rp['prop'], log, rp['meta'], rp.get('sup', True))
     print('native log:', log)
     print('violated:', bad)
